@@ -57,16 +57,16 @@ package kv
 //@ # versions handed out are strictly increasing, never reused: the counter is advanced by the
 //@ # number of operations first, then operation i gets old+i+1
 //@ func (va *versionAssigner) assign(ctx context.Context, br TxRequest) (out TxRequest, ok bool, err error)
-//@   requires va.counter != nil && xkv.SpecCounterVal[va.counter] >= 0 && xkv.SpecCounterVal[va.counter] + len(br.Operations) <= 9223372036854775807
+//@   requires va.counter != nil && xkv.SpecCounterVal[va.counter] >= 0 && xkv.SpecCounterVal[va.counter] + int64(len(br.Operations)) <= 9223372036854775807
 //@   ensures  err == nil
-//@   ensures  xkv.SpecCounterVal[va.counter] == old(xkv.SpecCounterVal[va.counter]) + len(br.Operations)
+//@   ensures  xkv.SpecCounterVal[va.counter] == old(xkv.SpecCounterVal[va.counter]) + int64(len(br.Operations))
 //@   ensures  ok ==> len(out.Operations) == len(br.Operations)
-//@   ensures  ok ==> (forall i int :: 0 <= i && i < len(out.Operations) ==> out.Operations[i].Version == version.Counter(old(xkv.SpecCounterVal[va.counter]) + i + 1))
+//@   ensures  ok ==> (forall i int :: 0 <= i && i < len(out.Operations) ==> out.Operations[i].Version == version.Counter(old(xkv.SpecCounterVal[va.counter]) + int64(i) + 1))
 //@   ensures  ok ==> (forall i int :: 0 <= i && i < len(out.Operations) ==> out.Operations[i].Leaseholder == br.Operations[i].Leaseholder && __eq(out.Operations[i].Change, br.Operations[i].Change))
 //@   ensures  ok ==> (forall i int :: 0 <= i && i < len(out.Operations) ==> out.Operations[i].Version > version.Counter(old(xkv.SpecCounterVal[va.counter])) && out.Operations[i].Version <= version.Counter(xkv.SpecCounterVal[va.counter]))
 //@   modifies xkv.SpecCounterVal
 //@   loop 0 invariant len(br.Operations) == old(len(br.Operations))
-//@   loop 0 invariant forall j int :: 0 <= j && j < i ==> br.Operations[j].Version == version.Counter(latestVer + j + 1)
+//@   loop 0 invariant forall j int :: 0 <= j && j < i ==> br.Operations[j].Version == version.Counter(latestVer + int64(j) + 1)
 //@   loop 0 invariant forall j int :: 0 <= j && j < len(br.Operations) ==> br.Operations[j].Leaseholder == old(br.Operations[j].Leaseholder) && __eq(br.Operations[j].Change, old(br.Operations[j].Change))
 
 //@ # a stored lease is never changed: an operation on an existing key keeps the stored
